@@ -14,6 +14,7 @@
 
 //! Elixir exception type support.
 
+use crate::fields::integer_field;
 use erltf::{Atom, OwnedTerm};
 use std::collections::BTreeMap;
 
@@ -321,9 +322,7 @@ impl UndefinedFunctionError {
             .get(&OwnedTerm::Atom(Atom::new("function")))?
             .atom_name()?
             .to_string();
-        let arity = map
-            .get(&OwnedTerm::Atom(Atom::new("arity")))?
-            .as_integer()? as u8;
+        let arity = integer_field(map, "arity")?;
         let reason = map
             .get(&OwnedTerm::Atom(Atom::new("reason")))
             .and_then(|v| v.as_erlang_string());
@@ -583,10 +582,7 @@ impl FunctionClauseError {
             .and_then(|f| f.atom_name())
             .map(|s| s.to_string());
 
-        let arity = map
-            .get(&OwnedTerm::Atom(Atom::new("arity")))
-            .and_then(|a| a.as_integer())
-            .map(|a| a as u8);
+        let arity = integer_field(map, "arity");
 
         let args = map
             .get(&OwnedTerm::Atom(Atom::new("args")))
